@@ -14,6 +14,9 @@ type Schema struct {
 	// types the map where key is the name of the type (or included Schema).
 	types    map[string]Type
 	rootNode Node
+
+	// origin the schema this one was made of by WithRootNode.
+	origin *Schema
 }
 
 func New() Schema {
@@ -43,11 +46,19 @@ func (s Schema) WithOwnTypes() *Schema {
 
 // WithRootNode returns a schema with the given root node and the same table of
 // types (the table itself, not a copy of it).
-func (s Schema) WithRootNode(node Node) *Schema {
+func (s *Schema) WithRootNode(node Node) *Schema {
 	return &Schema{
 		types:    s.types,
 		rootNode: node,
+		origin:   s,
 	}
+}
+
+// IsCopyOf reports whether the schema was made of the given one by WithRootNode.
+// The tables of types other than the one the copy was put into (see
+// ReplaceTypeSchema) still hold the given one.
+func (s *Schema) IsCopyOf(schema *Schema) bool {
+	return s != nil && s.origin != nil && s.origin == schema
 }
 
 // ReplaceTypeSchema makes the name stand for the given schema. Everything else
